@@ -772,7 +772,7 @@ def check_shape_models(ctx):
 
 def plan(tier, seed):
     n = 16 if tier == "quick" else 64
-    per = 2 if tier == "quick" else 10  # x 16..22 viewers each
+    per = 2 if tier == "quick" else 8  # x 16..22 viewers each
     return [{"shard": i, "programs": per, "timeout": 900 if tier == "quick" else 2400} for i in range(n)]
 
 
